@@ -1402,8 +1402,12 @@ class XMLSchemaBase(XsdValidator, ElementPathMixin[Union[SchemaType, XsdElement]
                 yield context.validation_error(validation, self, msg, context.source.root)
 
         # Check still enabled key references (lazy validation cases)
-        for identity, counter in context.identities.items():
+        for identity, counter in list(context.identities.items()):
             if counter.enabled and isinstance(identity, XsdKeyref):
+                refer = cast(KeyrefCounter, counter).refer
+                if refer is not None and refer not in context.identities:
+                    # The referred key has no scope in the XML instance: no value is found
+                    context.identities[refer] = refer.get_counter(context.source.root)
                 for error in cast(KeyrefCounter, counter).iter_errors(context.identities):
                     yield context.validation_error(validation, self, error, context.source.root)
 
